@@ -635,9 +635,14 @@ Proof.
   - destruct prog; try discriminate E. rg_inv E. left. apply tokonly_quiet. eapply tok_transfer_core_tokonly; exact E.
   - destruct prog; try discriminate E. rg_inv E. left. apply tokonly_quiet. eapply tok_burn_core_tokonly; exact E.
   - destruct prog; try discriminate E. destruct ms as [|callee rest]; [discriminate E|]. rg_inv E. eapply IH; exact E.
-  - destruct prog; try discriminate E. rg_inv E. rg_inv E.
-    apply withdraw_sol_cpi_case in E as (cx' & Hp & E). right. eexists cx', _, _. split; [exact Hp|]. split; [|exact E].
-    apply tokonly_quiet. eapply tok_transfer_checked_tokonly; eassumption.
+  - destruct prog; try discriminate E. rg_inv E.
+    match type of E with (if ?b then _ else _) = Ok _ => destruct b end.
+    + rg_inv E.
+      apply withdraw_sol_cpi_case in E as (cx' & Hp & E). right. eexists cx', _, _. split; [exact Hp|]. split; [|exact E].
+      apply tokonly_quiet. eapply tok_transfer_checked_tokonly; eassumption.
+    + revert E. destruct (nthk ms 8); intros E; try discriminate E. rg_inv E.
+      apply withdraw_sol_cpi_case in E as (cx' & Hp & E). right. eexists cx', _, _. split; [exact Hp|]. split; [|exact E].
+      apply quiet_refl.
   - destruct prog; injection E as <-; left; apply quiet_refl.
 Qed.
 
